@@ -8,6 +8,81 @@ Theorem c06_acn_layout :
 Proof. reflexivity. Qed.
 Print Assumptions c06_acn_layout.
 
+(* every constant the acn model takes from the repository (sizeof / offsetof of the packed wire structs, opcodes,
+   vectors, masks), regenerated into GenAcn.v on each run, pinned to the value the proofs and statements were written
+   for: a change of the wire layout or of a constant in /repo breaks this obligation deterministically *)
+Theorem c06_acn_consts :
+  ACN_MAX_DATAGRAM = 1472 /\
+  ACN_HEADER_SIZE = 16 /\
+  ACN_PRE_0 = 0 /\
+  ACN_PRE_1 = 16 /\
+  ACN_PRE_2 = 0 /\
+  ACN_PRE_3 = 0 /\
+  ACN_PRE_4 = 65 /\
+  ACN_PRE_5 = 83 /\
+  ACN_PRE_6 = 67 /\
+  ACN_PRE_7 = 45 /\
+  ACN_PRE_8 = 69 /\
+  ACN_PRE_9 = 49 /\
+  ACN_PRE_10 = 46 /\
+  ACN_PRE_11 = 49 /\
+  ACN_PRE_12 = 55 /\
+  ACN_PRE_13 = 0 /\
+  ACN_PRE_14 = 0 /\
+  ACN_PRE_15 = 0 /\
+  LFLAG_MASK = 128 /\
+  LENGTH_MASK = 15 /\
+  VFLAG_MASK = 64 /\
+  HFLAG_MASK = 32 /\
+  CID_LENGTH = 16 /\
+  ROOT_VECTOR_SIZE = 4 /\
+  E131_VECTOR_SIZE = 4 /\
+  DMP_VECTOR_SIZE = 1 /\
+  E131_HEADER_SIZE = 71 /\
+  E131_OFF_priority = 64 /\
+  E131_OFF_sequence = 67 /\
+  E131_OFF_options = 68 /\
+  E131_OFF_universe = 69 /\
+  E131_PREVIEW_MASK = 128 /\
+  E131_TERMINATED_MASK = 64 /\
+  REV2_HEADER_SIZE = 36 /\
+  REV2_OFF_priority = 32 /\
+  REV2_OFF_sequence = 33 /\
+  REV2_OFF_universe = 34 /\
+  DMP_HEADER_SIZE = 1 /\
+  DMP_VIRTUAL_MASK = 128 /\
+  DMP_RELATIVE_MASK = 64 /\
+  DMP_TYPE_MASK = 48 /\
+  DMP_SIZE_MASK = 3 /\
+  DMP_TWO_BYTES = 1 /\
+  DMP_ADDR_UNIT = 2 /\
+  DMP_RANGE_EQUAL = 2 /\
+  VECTOR_ROOT_E131 = 4 /\
+  VECTOR_ROOT_E131_REV2 = 3 /\
+  VECTOR_E131_DATA = 2 /\
+  VECTOR_E131_DISCOVERY = 4 /\
+  DMP_SET_PROPERTY_VECTOR = 2 /\
+  E131_SOURCE_NAME_LEN = 64 /\
+  E131_OFF_source = 0 /\
+  REV2_SOURCE_NAME_LEN = 32 /\
+  REV2_OFF_source = 0 /\
+  VECTOR_ROOT_RPT = 5 /\
+  VECTOR_ROOT_LLRP = 10 /\
+  VECTOR_FRAMING_RDMNET = 1 /\
+  VECTOR_LLRP_RDM_CMD = 3 /\
+  VECTOR_RDM_CMD_RDM_DATA = 204 /\
+  RDM_VECTOR_SIZE = 1 /\
+  E133_HEADER_SIZE = 71 /\
+  E133_OFF_sequence = 64 /\
+  E133_OFF_endpoint = 68 /\
+  LLRP_HEADER_SIZE = 20 /\
+  LLRP_OFF_transaction = 16 /\
+  MAX_E131_PRIORITY = 200 /\
+  MAX_MERGE_SOURCES = 6 /\
+  SEQ_DIFF_THRESHOLD_NEG = 20.
+Proof. repeat split; reflexivity. Qed.
+Print Assumptions c06_acn_consts.
+
 Theorem c06_acn_no_oob : forall buf ign n hs,
   bytes_ok buf = true -> len buf = 1472 -> n <= len buf ->
   run buf (acn_handle ign n hs) <> Hazard Oob.
@@ -35,6 +110,58 @@ Proof.
   unfold ACN_MAX_DATAGRAM. lia.
 Qed.
 Print Assumptions c06_acn_stale_free.
+
+(* "never fails to return": the PDU block walkers (BaseInflator::InflatePDUBlock at the root, E1.31, E1.31 rev2,
+   DMP, E1.33, LLRP and RDM levels, nested) and the discovery page walk, for a block at any offset and of any
+   length: fuel = block length + 1; measure: length - offset, every PDU advances the offset by at least the two
+   bytes of its length field (a PDU shorter than its own length field ends the walk) *)
+Theorem c06_acn_walkers_return : forall buf ign cid src off l st z,
+  bytes_ok buf = true -> z <> Oob ->
+  run buf (root_block ign off l st) <> Hazard z /\ run buf (e131_block ign cid off l st) <> Hazard z /\
+  run buf (rev2_block ign cid off l st) <> Hazard z /\ run buf (e133_block off l st) <> Hazard z /\
+  run buf (llrp_block off l st) <> Hazard z /\ run buf (disc_handle cid src off l st) <> Hazard z.
+Proof.
+  intros buf ign cid src off l st z Hb Hz.
+  repeat split; intros E; apply Hz.
+  - exact (nofail_run _ (bounded_nofail _ _ (root_block_bounded (off + l) ign off l st (N.le_refl _))) buf z Hb E).
+  - exact (nofail_run _ (bounded_nofail _ _ (e131_block_bounded (off + l) ign cid off l st (N.le_refl _))) buf z Hb E).
+  - exact (nofail_run _ (bounded_nofail _ _ (rev2_block_bounded (off + l) ign cid off l st (N.le_refl _))) buf z Hb E).
+  - exact (nofail_run _ (bounded_nofail _ _ (e133_block_bounded (off + l) off l st (N.le_refl _))) buf z Hb E).
+  - exact (nofail_run _ (bounded_nofail _ _ (llrp_block_bounded (off + l) off l st (N.le_refl _))) buf z Hb E).
+  - exact (nofail_run _ (bounded_nofail _ _ (disc_handle_bounded (off + l) cid src off l st (N.le_refl _))) buf z Hb E).
+Qed.
+Print Assumptions c06_acn_walkers_return.
+
+(* independent of the capacity and of what the socket layer reports: for a receive buffer of ANY size and ANY reported
+   length n < 2^31 the handler returns (its loops end within their fuel: PDU block walks: fuel = block length + 1, each PDU advances the offset by at least its 2-byte length field; discovery page walk: 2 bytes per turn) and never divides by zero; and if
+   the buffer does hold n bytes it reads nothing at or beyond n *)
+Theorem c06_acn_any_length : forall buf n ign hs,
+  bytes_ok buf = true -> n <= 2147483647 ->
+  (forall z, z <> Oob -> run buf (acn_handle ign n hs) <> Hazard z) /\
+  (n <= len buf -> forall z, run buf (acn_handle ign n hs) <> Hazard z).
+Proof.
+  intros buf n ign hs Hb Hn. pose proof (acn_bounded_any ign n hs Hn) as B. split.
+  - intros z Hz E. apply Hz. exact (nofail_run _ (bounded_nofail _ _ B) buf z Hb E).
+  - intros Hl z. apply (bounded_no_hazard n); assumption.
+Qed.
+Print Assumptions c06_acn_any_length.
+
+(* history level: any sequence of datagrams (with the node's ignore-preview setting), each followed in the receive buffer by arbitrary stale bytes, from any
+   initial state: no datagram ends in a hazard, and every output and the final state are the same whatever the
+   stale tails are *)
+Theorem c06_acn_history : forall (h1 h2 : list (bool * list N * list N)) s,
+  Forall (fun x => let '(_, d, t) := x in bytes_ok d = true /\ bytes_ok t = true /\ len d <= 1472) h1 ->
+  Forall2 (fun x y => fst x = fst y) h1 h2 ->
+  (exists r, run_hist (fun ign n hs => acn_handle ign n hs) (fun _ r => fst r) s h1 = Done r) /\
+  run_hist (fun ign n hs => acn_handle ign n hs) (fun _ r => fst r) s h1 = run_hist (fun ign n hs => acn_handle ign n hs) (fun _ r => fst r) s h2.
+Proof.
+  intros h1 h2 s Hok H2.
+  assert (Hb : forall i n st, n <= ACN_MAX_DATAGRAM -> bounded n ((fun ign n hs => acn_handle ign n hs) i n st)) by (intros; apply acn_bounded; assumption).
+  split.
+  - apply (hist_safe ACN_MAX_DATAGRAM _ _ Hb). exact Hok.
+  - apply (hist_stale_free ACN_MAX_DATAGRAM _ _ Hb); assumption.
+Qed.
+Print Assumptions c06_acn_history.
 
 Example ex_acn_data_handled :
   run ([0; 16; 0; 0; 65; 83; 67; 45; 69; 49; 46; 49; 55; 0; 0; 0; 112; 113; 0; 0; 0; 4; 17; 17; 17; 17; 17; 17; 17; 17; 17; 17; 17; 17; 17; 17; 17; 1; 112; 91; 0; 0; 0; 2; 115; 111; 117; 114; 99; 101; 0; 0; 0; 0; 0; 0; 0; 0; 0; 0; 0; 0; 0; 0; 0; 0; 0; 0; 0; 0; 0; 0; 0; 0; 0; 0; 0; 0; 0; 0; 0; 0; 0; 0; 0; 0; 0; 0; 0; 0; 0; 0; 0; 0; 0; 0; 0; 0; 0; 0; 0; 0; 0; 0; 0; 0; 0; 0; 100; 0; 0; 7; 0; 0; 1; 112; 14; 2; 161; 0; 0; 0; 1; 0; 4; 0; 9; 8; 7] ++ repeat 165 1343)
